@@ -19,6 +19,41 @@ pub enum Seg {
     Triple(usize, usize, usize),
     /// explicit catalogue entries
     Fixed(Vec<(Vec<S>, usize)>),
+    /// every read set of `inner` with each base replaced by an `m`-letter codeword (`Code`)
+    Lift(Box<Seg>, Code),
+}
+
+/// A substitution code base -> word of `m` letters.  The symmetric codes satisfy
+/// word(complement b) = reverse complement of word(b), so lifting commutes with reverse
+/// complement: palindromes, hairpins and both-strand observations of the small-K read set
+/// reappear at K' = m * K, and the de Bruijn graph of the lifted reads is the small graph with
+/// its steps subdivided by the out-of-frame k-mers.
+#[derive(Clone, Debug)]
+pub struct Code {
+    pub words: [S; 4],
+}
+impl Code {
+    /// variant 0, 1: two different strand-symmetric codes; variant 2: an unrelated word per base
+    pub fn new(m: usize, variant: u64) -> Code {
+        let mut g = Lcg(0xC0DE_0000_0000_0000 ^ ((m as u64) << 8) ^ variant);
+        loop {
+            let (a, c) = (g.dna(m), g.dna(m));
+            let (t, gg) = if variant == 2 { (g.dna(m), g.dna(m)) } else { (rc(&a), rc(&c)) };
+            let words = [a, c, gg, t];
+            // the four words must be pairwise different (for m = 1 that forces the identity-like codes)
+            let distinct = (0..4).all(|i| (0..i).all(|j| words[i] != words[j]));
+            if distinct {
+                return Code { words };
+            }
+        }
+    }
+    pub fn apply(&self, s: &[u8]) -> S {
+        let mut out = Vec::with_capacity(s.len() * self.words[0].len());
+        for b in s {
+            out.extend_from_slice(&self.words[*b as usize]);
+        }
+        out
+    }
 }
 impl Seg {
     pub fn count(&self) -> u64 {
@@ -27,6 +62,7 @@ impl Seg {
             Seg::Pair(a, b) => count_strings(a + b),
             Seg::Triple(a, b, c) => count_strings(a + b + c),
             Seg::Fixed(v) => v.len() as u64,
+            Seg::Lift(inner, _) => inner.count(),
         }
     }
     /// (reads, count threshold)
@@ -61,6 +97,10 @@ impl Seg {
                 (vec![s[..*a].to_vec(), s[*a..a + b].to_vec(), s[a + b..].to_vec()], 1)
             }
             Seg::Fixed(v) => v[i as usize].clone(),
+            Seg::Lift(inner, code) => {
+                let (reads, thr) = inner.get(i);
+                (reads.iter().map(|r| code.apply(r)).collect(), thr)
+            }
         }
     }
 }
@@ -119,6 +159,10 @@ impl Space {
             }
         }
         Space { segs }
+    }
+    /// every read set of `self`, lifted through `code`
+    pub fn lift(self, code: &Code) -> Space {
+        Space { segs: self.segs.into_iter().map(|s| Seg::Lift(Box::new(s), code.clone())).collect() }
     }
     pub fn plus(mut self, o: Space) -> Space {
         self.segs.extend(o.segs);
@@ -229,4 +273,45 @@ pub fn catalogue(k: usize) -> Seg {
     v.push((vec![g.dna(k - 1)], 1));
     v.push((vec![g.dna(k - 1), g.dna(k + 2)], 1));
     Seg::Fixed(v)
+}
+
+
+/// For a wide K: the small K0 in {4, 5, 6} and the code length m with which the exhaustive K0
+/// families are lifted to K (m * K0 == K where K has such a divisor; otherwise K0 = 4 and
+/// m = ceil(K / 4), which still gives repeat-rich reads of length >= K but not the mirrored topology).
+pub fn lift_shape(k: usize) -> (usize, usize) {
+    for k0 in [4usize, 5, 6] {
+        if k % k0 == 0 {
+            return (k0, k / k0);
+        }
+    }
+    (4, (k + 3) / 4)
+}
+
+/// The lifted families for one wide K: all single reads of K0..K0+d bases, the threshold families
+/// and (deep) ordered pairs of K0-long reads, through two strand-symmetric codes and one unrelated code.
+pub fn lifted(k: usize, deep: bool) -> Space {
+    let (k0, m) = lift_shape(k);
+    let mut sp = Space::default();
+    for variant in 0..3u64 {
+        let code = Code::new(m, variant);
+        // quick: about 6 000 read sets for the first code, a few hundred for the others
+        let d = match (deep, variant, k0) {
+            (true, 0, 4) => 4,
+            (true, 0, _) => 3,
+            (true, _, _) => 2,
+            (false, 0, 4) => 2,
+            (false, 0, _) => 1,
+            (false, _, _) => 0,
+        };
+        let mut inner = Space::singles(k0, k0 + d);
+        if variant == 0 {
+            inner = inner.plus(Space::thresholds(k0, k0 + if deep { 2 } else { 0 }));
+            if deep && k0 == 4 {
+                inner = inner.plus(Space { segs: vec![Seg::Pair(4, 4)] });
+            }
+        }
+        sp = sp.plus(inner.lift(&code));
+    }
+    sp
 }
